@@ -1,7 +1,7 @@
 """C20 — client configuration: environment over file over platform default (DESIGN §4 C20)."""
 import ast
 
-from .common import ctx, returns, calls_in_ctx, reach_from_succ, site, srcs_text, full_text
+from .common import ctx, returns, calls_in_ctx, reach_from_succ, site, srcs_text, full_text, explore_sym, unique_defs
 from ..flow import callee_attr
 from ..loader import AnalysisError, norm, NOVALUE
 from ..verdict import StrDomain, pruned_edges
@@ -116,34 +116,49 @@ def run(R):
     inst = RC + ' :: environment names'
     if envw:
         evalue = ast.parse(full_text(rc, envw[0].ast.value), mode='eval').body
-        sub = [x for x in ast.walk(evalue) if isinstance(x, ast.JoinedStr)]
-        names = set()
-        fmt = [x for x in ast.walk(evalue) if isinstance(x, ast.Call) and isinstance(x.func, ast.Attribute) and x.func.attr == 'format'
-               and isinstance(x.func.value, ast.Constant) and isinstance(x.func.value.value, str) and len(x.args) == 1 and not x.keywords]
-        if not sub and fmt and fmt[0].func.value.value.count('{}') == 1:
-            # 'NDN_CLIENT_{}'.format(key.upper())
-            a_ = ast.unparse(fmt[0].args[0])
-            for key in sorted(KEYS):
-                if a_ == 'key.upper()':
-                    names.add(fmt[0].func.value.value.replace('{}', key.upper()))
-                elif a_ == 'key':
-                    names.add(fmt[0].func.value.value.replace('{}', key))
-        if sub:
-            js = sub[0]
-            for key in sorted(KEYS):
+        loopv = [n.ast.target.id for n in rc.cfg.nodes if n.kind == 'for' and isinstance(n.ast.target, ast.Name)
+                 and any(x is envw[0].ast for x in ast.walk(n.ast))]
+
+        def str_eval(e, key):
+            """value of a string expression built from the loop variable, for one key; None if not understood"""
+            if isinstance(e, ast.Constant) and isinstance(e.value, str):
+                return e.value
+            if isinstance(e, ast.Name) and e.id in loopv:
+                return key
+            if isinstance(e, ast.Call) and isinstance(e.func, ast.Attribute) and not e.args and not e.keywords and e.func.attr in ('upper', 'lower'):
+                v = str_eval(e.func.value, key)
+                return None if v is None else getattr(v, e.func.attr)()
+            if isinstance(e, ast.Call) and ast.unparse(e.func) == 'str' and len(e.args) == 1:
+                return str_eval(e.args[0], key)
+            if isinstance(e, ast.BinOp) and isinstance(e.op, ast.Add):
+                a_, b_ = str_eval(e.left, key), str_eval(e.right, key)
+                return None if a_ is None or b_ is None else a_ + b_
+            if isinstance(e, ast.BinOp) and isinstance(e.op, ast.Mod) and isinstance(e.left, ast.Constant) and isinstance(e.left.value, str) \
+                    and e.left.value.count('%s') == 1 and e.left.value.count('%') == 1:
+                b_ = str_eval(e.right.elts[0] if isinstance(e.right, ast.Tuple) and len(e.right.elts) == 1 else e.right, key)
+                return None if b_ is None else e.left.value.replace('%s', b_)
+            if isinstance(e, ast.JoinedStr):
                 out = ''
-                okf = True
-                for v in js.values:
-                    if isinstance(v, ast.Constant):
-                        out += v.value
-                    elif isinstance(v, ast.FormattedValue) and ast.unparse(v.value) in ('key.upper()',):
-                        out += key.upper()
-                    elif isinstance(v, ast.FormattedValue) and ast.unparse(v.value) == 'key':
-                        out += key
-                    else:
-                        okf = False
-                if okf:
-                    names.add(out)
+                for v in e.values:
+                    x = str_eval(v.value, key) if isinstance(v, ast.FormattedValue) and v.conversion == -1 and v.format_spec is None else str_eval(v, key)
+                    if x is None:
+                        return None
+                    out += x
+                return out
+            if isinstance(e, ast.Call) and isinstance(e.func, ast.Attribute) and e.func.attr == 'format' and isinstance(e.func.value, ast.Constant) \
+                    and isinstance(e.func.value.value, str) and len(e.args) == 1 and not e.keywords and e.func.value.value.count('{}') == 1 \
+                    and e.func.value.value.count('{') == 1:
+                b_ = str_eval(e.args[0], key)
+                return None if b_ is None else e.func.value.value.replace('{}', b_)
+            return None
+        # the name looked up in the environment: the subscript / first argument of the read
+        look = [x.slice for x in ast.walk(evalue) if isinstance(x, ast.Subscript) and 'environ' in ast.unparse(x.value)] + \
+               [x.args[0] for x in ast.walk(evalue) if isinstance(x, ast.Call) and callee_attr(x) in ('get', 'getenv') and x.args
+                and ('environ' in ast.unparse(x.func) or 'getenv' in ast.unparse(x.func))]
+        names = set()
+        if len(look) == 1:
+            names = {str_eval(look[0], key) for key in sorted(KEYS)}
+            names = {x if x is not None else norm(look[0]) for x in names}
         if names == {'NDN_CLIENT_TRANSPORT', 'NDN_CLIENT_PIB', 'NDN_CLIENT_TPM'}:
             R.ok('C20.TBL.1', inst, site(rc, envw[0].ast), str(sorted(names)))
         else:
@@ -304,48 +319,185 @@ def run(R):
                        site(cx, c))
     R.need(nsplit >= 3, f'only {nsplit} scheme:location splits found, 3 confirmed by hand')
     # ------------------------------------------------------------------ MPT.1 resolve_location
+    # Decided by exhaustive exploration of resolve_location under every valuation of its file-system / argument conditions, with the
+    # location carried symbolically:  given (the text after the colon) | empty | joined (given re-based on the directory of the
+    # configuration file) | plat:<item> (a platform default candidate) | platok:<item> (a candidate seen to exist).
     rl = ctx(R, RC + '.<resolve_location>')
-    locdefs = [n for n in rl.cfg.nodes if n.kind == 'stmt' and isinstance(n.ast, ast.Assign) and any(ast.unparse(t) == 'loc' for t in n.ast.targets)]
-    joins = [n for n in locdefs if 'os.path.join' in ast.unparse(n.ast.value)]
-    plats = [n for n in locdefs if isinstance(n.ast.value, ast.Name) and n.ast.value.id not in ('value',)]
-    ex_tests = [t for t in rl.cfg.nodes if t.kind == 'test' and ast.unparse(t.ast) == 'os.path.exists(loc)']
     inst = rl.qual + ' :: fallback chain'
+    rl_params = [a.arg for a in rl.f.node.args.args]
+    R.need(len(rl_params) >= 2, 'resolve_location(item, value) expected')
+    p_item, p_value = rl_params[0], rl_params[1]
     probs = []
-    if len(joins) != 1 or 'os.path.dirname(path)' not in ast.unparse(joins[0].ast.value):
-        probs.append(('a relative location is not resolved against the directory of the configuration file', rl.f.node))
-    if not plats:
-        probs.append(('no fall-back to the platform default location', rl.f.node))
-    if not ex_tests:
-        probs.append(('the location is never tested for existence', rl.f.node))
-    if not probs:
-        # with the "exists" edges of every existence test on `loc` kept and the "missing" edges removed, no fallback may be reachable
-        # i.e. an existing location is returned as given
-        removed = {(t.id, False) for t in ex_tests}
-        loc_truth = [t for t in rl.cfg.nodes if t.kind == 'test' and ast.unparse(t.ast) == 'loc']
-        removed |= {(t.id, False) for t in loc_truth}
-        reach = rl.cfg.reachable(removed_edges=removed)
-        if any(n.id in reach for n in joins + plats):
-            probs.append(('an existing location can be replaced by a fallback', (joins + plats)[0].ast))
-        # ... and a location that exists once re-based on the configuration directory is kept
-        r2 = reach_from_succ(rl.cfg, joins[0], removed_edges=removed, follow_exc=False)
-        if any(n.id in r2 for n in plats):
-            probs.append(('a location found relative to the configuration file is replaced by the platform default (existence is not re-checked)', plats[0].ast))
-        # the platform default is tried only after the file-relative attempt
-        if not all(rl.cfg.path_exists(joins[0], p) for p in plats):
-            probs.append(('platform default is not a fallback of the file-relative location', plats[0].ast))
-        # platform list matches the item
-        pib_t = [t for t in rl.cfg.nodes if t.kind == 'test' and ast.unparse(t.ast) in ("item == 'pib'",)]
-        pl = [n for n in rl.cfg.nodes if n.kind == 'stmt' and isinstance(n.ast, ast.Assign) and 'default_pib_paths' in ast.unparse(n.ast.value)]
-        tl = [n for n in rl.cfg.nodes if n.kind == 'stmt' and isinstance(n.ast, ast.Assign) and 'default_tpm_paths' in ast.unparse(n.ast.value)]
-        if len(pib_t) != 1 or len(pl) != 1 or len(tl) != 1 or pl[0].id in rl.cfg.reachable(removed_edges={(pib_t[0].id, True)}) \
-                or tl[0].id in rl.cfg.reachable(removed_edges={(pib_t[0].id, False)}):
-            probs.append(('pib / tpm default locations are not selected by the item', rl.f.node))
-        rets = returns(rl)
-        if not rets or any(ast.unparse(r.ast.value) not in ("':'.join((scheme, loc))", "f'{scheme}:{loc}'", "scheme + ':' + loc") for r in rets):
-            probs.append(('the result is not scheme:location', rets[0].ast if rets else rl.f.node))
+
+    def sym(e, st):
+        """symbolic value of an expression in state st (a dict), None = not a tracked value"""
+        if isinstance(e, ast.Name):
+            if e.id == p_value:
+                return 'given'
+            return st.get(e.id)
+        if isinstance(e, ast.Constant) and e.value == '':
+            return 'empty'
+        if isinstance(e, ast.Call):
+            f = ast.unparse(e.func)
+            if f == 'os.path.join' and len(e.args) == 2 and isinstance(e.args[0], ast.Call) and ast.unparse(e.args[0].func) == 'os.path.dirname' \
+                    and len(e.args[0].args) == 1 and sym(e.args[0].args[0], st) == 'confpath' and sym(e.args[1], st) == 'given':
+                return 'joined'
+            if f == 'os.path.expandvars' and len(e.args) == 1:
+                return sym(e.args[0], st)
+            if callee_attr(e) in ('default_pib_paths', 'default_tpm_paths') and 'Platform()' in full_text(rl, e.func):
+                return 'platlist:' + callee_attr(e)[8:11]
+            if callee_attr(e) in ('split', 'partition', 'rsplit') and sym(e.func.value, st) == 'given':
+                return 'given'
+            if f in ('str',) and len(e.args) == 1:
+                return sym(e.args[0], st)
+        if isinstance(e, ast.Subscript):
+            return sym(e.value, st)
+        if isinstance(e, ast.IfExp):
+            t = atom(e.test, st)
+            if t is True:
+                return sym(e.body, st)
+            if t is False:
+                return sym(e.orelse, st)
+            a_, b_ = sym(e.body, st), sym(e.orelse, st)
+            return a_ if a_ == b_ else ('?' if (a_ or b_) else None)
+        return None
+
+    def atom(e, st):
+        t = ast.unparse(e)
+        if isinstance(e, ast.Name) and e.id in st:
+            v = st[e.id]
+            # (get_path yields '' when there is no file: `path is not None` and `path` differ only in re-basing on '' = no re-basing)
+            return {'given': VAL['L'], 'empty': False, 'joined': True, 'confpath': VAL['P']}.get(v, True if v.startswith('plat') else None)
+        if isinstance(e, ast.Call) and ast.unparse(e.func) == 'os.path.exists' and len(e.args) == 1:
+            v = sym(e.args[0], st)
+            if v == 'given':
+                return VAL['E1']
+            if v == 'joined':
+                return VAL['E2']
+            if v == 'empty':
+                return False
+            if v and v.startswith('platok'):
+                return True
+            if v and v.startswith('plat:'):
+                return None        # each candidate may or may not exist
+            raise AnalysisError(f'{rl.qual}: existence test on an untracked value `{t}`')
+        c = cmp_sides(e)
+        if c:
+            l, op, r = c
+            if r == 'None' and sym(e.left, st) == 'confpath' and op in (ast.Is, ast.IsNot, ast.Eq, ast.NotEq):
+                return (not VAL['P']) if op in (ast.Is, ast.Eq) else VAL['P']
+            if l == p_item and r in ("'pib'", "'tpm'") and op in (ast.Eq, ast.NotEq):
+                v = VAL['I'] if r == "'pib'" else not VAL['I']
+                return v if op is ast.Eq else not v
+            if isinstance(e.left, ast.Call) and ast.unparse(e.left.func) == 'len' and len(e.left.args) == 1 and sym(e.left.args[0], st) == 'given' \
+                    and (r, op) in (('1', ast.Eq), ('2', ast.Lt), ('2', ast.NotEq), ('1', ast.LtE)):
+                return not VAL['C']     # the split gave a single part: no colon in the value
+            if isinstance(e.left, ast.Call) and ast.unparse(e.left.func) == 'len' and len(e.left.args) == 1 and sym(e.left.args[0], st) == 'given' \
+                    and (r, op) in (('2', ast.Eq), ('1', ast.Gt), ('1', ast.NotEq), ('2', ast.GtE)):
+                return VAL['C']
+        return None
+
+    def undecided(n, stt):
+        # a fork is modelled only for the existence of a platform candidate
+        e = n.ast
+        if isinstance(e, ast.Call) and ast.unparse(e.func) == 'os.path.exists':
+            return
+        if any(isinstance(x, ast.Name) and (x.id in dict(stt) or x.id in (p_item, p_value)) for x in ast.walk(e)):
+            raise AnalysisError(f'{rl.qual}: unrecognised condition on the location `{norm(e)}`')
+
+    def transfer(n, stt):
+        st = dict(stt)
+        if n.kind == 'stmt' and isinstance(n.ast, ast.Assign) and len(n.ast.targets) == 1:
+            tg = n.ast.targets[0]
+            v = sym(n.ast.value, st)
+            if isinstance(tg, ast.Name):
+                if v is not None:
+                    st[tg.id] = v
+                else:
+                    st.pop(tg.id, None)
+            elif isinstance(tg, (ast.Tuple, ast.List)):
+                for x in tg.elts:
+                    if isinstance(x, ast.Name):
+                        if v is not None:
+                            st[x.id] = v
+                        else:
+                            st.pop(x.id, None)
+        elif n.kind == 'for' and isinstance(n.ast.target, ast.Name):
+            v = sym(n.ast.iter, st)
+            if v and v.startswith('platlist:'):
+                st[n.ast.target.id] = 'plat:' + v[9:]
+            else:
+                st.pop(n.ast.target.id, None)
+        return tuple(sorted(st.items()))
+
+    def on_edge(t, label, stt):
+        e = t.ast
+        if label is True and isinstance(e, ast.Call) and ast.unparse(e.func) == 'os.path.exists' and len(e.args) == 1 and isinstance(e.args[0], ast.Name):
+            st = dict(stt)
+            v = st.get(e.args[0].id)
+            if v and v.startswith('plat:'):
+                st[e.args[0].id] = 'platok:' + v[5:]
+                return tuple(sorted(st.items()))
+        return stt
+
+    from .lvs import cmp_sides
+
+    def atom_t(e, stt):
+        return atom(e, dict(stt))
+
+    def loc_of_return(r, st):
+        v = r.ast.value
+        if isinstance(v, ast.Call) and ast.unparse(v.func) == "':'.join" and len(v.args) == 1 and isinstance(v.args[0], (ast.Tuple, ast.List)) and len(v.args[0].elts) == 2:
+            return sym(v.args[0].elts[1], st)
+        if isinstance(v, ast.JoinedStr) and len(v.values) == 3 and isinstance(v.values[1], ast.Constant) and v.values[1].value == ':' \
+                and isinstance(v.values[2], ast.FormattedValue):
+            return sym(v.values[2].value, st)
+        if isinstance(v, ast.BinOp) and isinstance(v.op, ast.Add) and isinstance(v.left, ast.BinOp) and isinstance(v.left.right, ast.Constant) and v.left.right.value == ':':
+            return sym(v.right, st)
+        return None
+    # the configuration path: the enclosing function's local bound to get_path()
+    free_path = [nm for nm, v in unique_defs(rc).items() if isinstance(v, ast.Call) and ast.unparse(v.func) == 'get_path']
+    R.need(len(free_path) == 1, 'the configuration path local (`path = get_path()`) was not found')
+    st0 = tuple(sorted({free_path[0]: 'confpath'}.items()))
+    rets = returns(rl)
+    n_val = 0
+    for (C, L) in ((True, True), (True, False), (False, False)):
+        for E1 in (True, False):
+            for Pv in (True, False):
+                for E2 in (True, False):
+                    for I in (True, False):
+                        if (not L and (E1 or E2)) or (not Pv and E2):
+                            continue
+                        VAL = {'C': C, 'L': L, 'E1': E1, 'P': Pv, 'E2': E2, 'I': I}
+                        n_val += 1
+                        reached = explore_sym(rl, atom_t, transfer, st0, on_edge, on_undecided=undecided)
+                        got = set()
+                        for r in rets:
+                            for (nid, stt) in reached:
+                                if nid == r.id:
+                                    v = loc_of_return(r, dict(stt))
+                                    got.add('empty' if (v == 'given' and not L) else (v or f'?{norm(r.ast)}'))
+                        kind = 'pib' if I else 'tpm'
+                        if not L:
+                            want = {'platok:' + kind, 'empty'}
+                        elif E1:
+                            want = {'given'}
+                        elif Pv and E2:
+                            want = {'joined'}
+                        elif Pv:
+                            want = {'platok:' + kind, 'joined'}
+                        else:
+                            want = {'platok:' + kind, 'given'}
+                        if got != want:
+                            desc = f'location {"non-empty" if L else "empty"}' + (f', {"exists" if E1 else "missing"} as given' if L else '') + \
+                                (f', configuration file {"present" if Pv else "absent"}' if L and not E1 else '') + \
+                                (f', {"exists" if E2 else "missing"} relative to it' if L and not E1 and Pv else '') + f', item {kind}'
+                            probs.append((f'[{desc}] resolves to {sorted(got)}, expected {sorted(want)}', rl.f.node))
+    R.paths_examined += n_val
     if probs:
-        for (what, construct) in probs:
-            R.fail('C20.MPT.1', inst, rl.qual, construct if not isinstance(construct, ast.FunctionDef) else 'def resolve_location', what, site(rl, construct))
+        seen_p = set()
+        for (what, construct) in probs[:1]:
+            R.fail('C20.MPT.1', inst, rl.qual, 'def resolve_location', what + (f' (+{len(probs) - 1} more valuations)' if len(probs) > 1 else ''), site(rl, construct))
     else:
-        R.ok('C20.MPT.1', inst, site(rl, joins[0].ast))
+        R.ok('C20.MPT.1', inst, site(rl, rl.f.node), f'{n_val} valuations of (colon?, location empty?, exists as given?, configuration file?, exists relative?, item)')
     R.assumptions += ['ConfigParser / urlparse / os.path semantics', 'file-system state is not decided']
